@@ -127,6 +127,13 @@ BUILT: dict[str, dict[str, str]] = {
         note="Crash = process death (no power loss); the dead worker's cleanup code is prevented from running; SQLite's own journal is trusted.",
         ref="DESIGN.md 2.4, 3/C05",
     ),
+    "C04": dict(
+        technique="schedule enumeration + property-based testing (Hypothesis): generated queue scenarios (enqueue / add WAITING / delete-recreate / pre-owned RUNNING trial) and worker scripts run under a deterministic line-level scheduler on nine thread / 'process' layouts; all single-preemption schedules (or a stratified sample) plus generated multi-preemption schedules; exactly-once and verbatim-parameter oracle incl. a sequential drain",
+        category="exploration",
+        text="For each generated scenario the interleavings with one preemption at any source line of the storage layer / the ask path (and any system call of the journal file backend) are executed -- completely in the thorough tier, as a stratified sample of 50-90 switch points in the quick tier -- and judged: no trial id returned twice, no queued trial skipped, enqueued values delivered verbatim, number and user attributes kept.",
+        note="Line-granular preemption, simulated processes, SQLite busy timeout 0 (documented 'database is locked' errors are allowed outcomes).",
+        ref="DESIGN.md 2.3, 3/C04",
+    ),
 }
 
 NOT_YET: dict[str, str] = {}
